@@ -1621,4 +1621,71 @@ example : ∃ p, parseString .document Env.fresh piColonText = .ok p ∧ Represe
   cases h1
   exact ⟨p, h, hnr, hr, hw, hs, p', h2, h3, h4, h5⟩
 
+/-! ## Documents built with the convenience calls
+
+  `C01_reachable_roundtrip` for histories mixing the calls of `Op` with the convenience calls (`Forest.COp`:
+  `new_document_with_element`, `append_text`, `append_element`, `set_attribute`, `set_namespace`, …;
+  `creationRun`, `C04_reach_creation`, `C01_reachable_creation_representable` in Props/C04.lean).  No side
+  condition on the history beyond consolidation never having been switched off; the value-level hypotheses
+  are the same as there. -/
+
+/-- ⟦C01_reachable_creation_roundtrip⟧ every document such a history reaches, if its values are in the XML domain
+    and its names are writable, serialises, and the text parses back to exactly that tree. -/
+theorem C01_reachable_creation_roundtrip (ops : List (Op ⊕ Forest.COp))
+    (hoff : (creationRun ops).everOff = false)
+    (r : HTree) (hr : r ∈ (creationRun ops).roots)
+    (hdoc : r.value.isDocument = true) (env' : Env) (henv : envOK env' = true)
+    (hval : r.erase.allNodes (fun v _ => valueOK env' v) = true)
+    (hid : (xmlIdValues env' r.erase).Nodup) (hone : singleRoot r.erase = true)
+    (hwr : namesWritable env' r.erase [] = some true) :
+    ∃ s p, toXmlString env' r.erase [] = .ok s ∧ parseString .document env' s = .ok p ∧
+      p.tree = r.erase ∧ p.env = env' ∧ deepEqual p.tree r.erase = true := by
+  have hrep : Representable env' r.erase = true := by
+    rw [(C01_reachable_creation_representable ops hoff r hr env').2]
+    simp [henv, hdoc, hval, hid, hone]
+  exact C01_roundtrip_writable env' r.erase hrep hwr
+
+/-- The same for `parse_fragment`: any number of top-level elements, top-level text allowed. -/
+theorem C01_reachable_creation_roundtrip_fragment (ops : List (Op ⊕ Forest.COp))
+    (hoff : (creationRun ops).everOff = false)
+    (r : HTree) (hr : r ∈ (creationRun ops).roots)
+    (hdoc : r.value.isDocument = true) (env' : Env) (henv : envOK env' = true)
+    (hval : r.erase.allNodes (fun v _ => valueOK env' v) = true)
+    (hid : (xmlIdValues env' r.erase).Nodup)
+    (hwr : namesWritable env' r.erase [] = some true) :
+    ∃ s p, toXmlString env' r.erase [] = .ok s ∧ parseString .fragment env' s = .ok p ∧
+      p.tree = r.erase ∧ p.env = env' ∧ deepEqual p.tree r.erase = true := by
+  have hrep : RepresentableFragment env' r.erase = true := by
+    rw [(C01_reachable_creation_representable ops hoff r hr env').1]
+    simp [henv, hdoc, hval, hid]
+  obtain ⟨s, hs⟩ := (C01_serialises env' r.erase hrep).mpr hwr
+  obtain ⟨p, h1, h2, h3, h4⟩ := C01_roundtrip_fragment_identical env' r.erase hrep s hs
+  exact ⟨s, p, hs, h1, h2, h3, h4⟩
+
+/-! Non-vacuity, closed: `new_element; new_document_with_element; append_text "x"; set_attribute a="v";
+    append_comment "c"` (all but the first are convenience calls) over the tables `reachDocEnv` of Props/C04.lean
+    reaches the one document `<e a="v">x</e><!--c-->`; every hypothesis evaluates to true, the text parses back. -/
+
+def creationDocOps : List (Op ⊕ Forest.COp) :=
+  [.inl (.newElement 0), .inr (.newDocumentWithElement 0), .inr (.appendNew 0 (.text ['x'])),
+   .inr (.setAttribute 0 2 ['v']), .inr (.appendNew 1 (.comment ['c']))]
+def creationDocRoot : HTree :=
+  .node 1 .document [.node 0 (.element 0) [.node 3 (.attribute 2 ['v']) [], .node 2 (.text ['x']) []],
+    .node 4 (.comment ['c']) []]
+def creationDocText : Str := "<e a=\"v\">x</e><!--c-->".toList
+theorem creationDocRoot_mem : creationDocRoot ∈ (creationRun creationDocOps).roots := by
+  have : (creationRun creationDocOps).roots = [creationDocRoot] := by decide +kernel
+  rw [this]; exact List.mem_singleton.mpr rfl
+
+example : ∃ p, parseString .document reachDocEnv creationDocText = .ok p ∧ p.tree = creationDocRoot.erase ∧
+    p.env = reachDocEnv ∧ deepEqual p.tree creationDocRoot.erase = true := by
+  obtain ⟨s, p, h1, h2, h3, h4, h5⟩ := C01_reachable_creation_roundtrip creationDocOps (by decide +kernel)
+    creationDocRoot creationDocRoot_mem rfl reachDocEnv (by decide +kernel) (by decide +kernel)
+    (by decide +kernel) (by decide +kernel) (by decide +kernel)
+  have hs : s = creationDocText := by
+    have : toXmlString reachDocEnv creationDocRoot.erase [] = .ok creationDocText := by decide +kernel
+    rw [this] at h1; cases h1; rfl
+  subst hs
+  exact ⟨p, h2, h3, h4, h5⟩
+
 end XotModel.Props
